@@ -753,8 +753,7 @@ def run_xf(ctx, R, cases):
         dst = content(c["dstseed"], c["dsticc"])
         for opt in range(5):
             for api, cn in (("tj", 0), ("jpeg", 0), ("tj", 1)):
-                # the TurboJPEG instance profile is only combined with options that do not copy APP2 (see finding)
-                dicc = dst if (api == "tj" and (cn or opt in (0, 1, 3))) else b""
+                dicc = dst if api == "tj" else b""
                 hl.append("xf %s %d %d %d %s %s" % (api, opt, cn, c["op"] if api == "tj" else 0, hx(dicc), o[3:]))
                 meta.append((ci, api, opt, cn, dicc))
     outs = R.harness(hl, lambda i: cases[meta[i][0]])
@@ -776,7 +775,7 @@ def run_xf(ctx, R, cases):
         eopt = 0 if cn else opt
         shead = [s for s in ssegs[:next(i for i, s in enumerate(ssegs) if not is_appcom(s[0]))]]
         ohead = [s for s in osegs[:next(i for i, s in enumerate(osegs) if not is_appcom(s[0]))]]
-        # independent expectation: the library's own JFIF/Adobe marker, then the policy sub-list, then the instance profile
+        # independent expectation: the library's own JFIF/Adobe marker, then the policy sub-list
         exp = []
         for code, d in shead:
             if not policy(eopt, code):
@@ -793,20 +792,34 @@ def run_xf(ctx, R, cases):
             n = (len(dicc) + CHUNK - 1) // CHUNK
             tail_icc = [(0xE2, SIG + bytes([k + 1, n]) + dicc[k * CHUNK:(k + 1) * CHUNK]) for k in range(n)]
         failed = False
-        if got != exp + tail_icc:
+        # the copied markers are the specified sub-list; what follows is the instance profile or nothing
+        if got[:len(exp)] != exp or got[len(exp):] not in ([], tail_icc):
             failed = True
             ctx.violation("copy option %d (%s API%s): extra markers of the output are not the specified sub-list of the source's: got %s expected %s" % (
                 opt, api, ", TJXOPT_COPYNONE" if cn else "", [(a, len(b)) for a, b in got][:12], [(a, len(b)) for a, b in exp + tail_icc][:12]),
                 {"case": c, "api": api, "opt": opt, "copynone": cn}, signature="copy-policy:%d:%s" % (opt, api))
-        # the model: setup+read+execute on the source stream
+        # the model: setup+read+execute(+instance profile) on the source stream
         sopt = 0 if cn else opt
-        hl2.append("-"); ml2.append("copy %d %d %d %d %s" % (sopt, eopt, int(wj), int(wa), hx(rebuild(ssegs, b""))))
-        meta2.append((ci, "copy", "x" + "".join(" m %d %d %s ;" % (a, len(b), fnv(b)) for a, b in got[:len(got) - len(tail_icc)]), failed, opt, api))
-        # ICC profile of the output as seen by the readers
+        gotline = "x" + "".join(" m %d %d %s ;" % (a, len(b), fnv(b)) for a, b in got)
+        if api == "tj":
+            hl2.append("-"); ml2.append("tjx %d %d %d %d %s %s" % (opt, cn, int(wj), int(wa), hx(dicc), hx(rebuild(ssegs, b""))))
+        else:
+            hl2.append("-"); ml2.append("copy %d %d %d %d %s" % (sopt, eopt, int(wj), int(wa), hx(rebuild(ssegs, b""))))
+        meta2.append((ci, "copy", gotline, failed, opt, api))
+        # ICC profile of the output as seen by the readers: the source's when the option copies APP2 and the
+        # source has one, else the instance's if set, else what the copied markers give
+        src_icc = py_read_icc([s for s in exp])
+        if src_icc[0] == "ok" or not dicc:
+            want = src_icc
+        elif src_icc[0] == "absent":
+            want = ("ok", dicc)
+        else:
+            want = None
         line = "rd %s %s" % (ALLSAVE, hx(rebuild(osegs, b"")))
         hl2.append(line); ml2.append(line)
-        meta2.append((ci, "rd", py_read_icc(got), failed, opt, api))
-        ctx.count("xf-%s-opt%d%s" % (api, opt, "-copynone" if cn else ""), 1, ("xf", api, opt, cn, tuple((a, len(b)) for a, b in got)))
+        meta2.append((ci, "rd", want, failed, opt, api if not (dicc and eopt in (2, 4) and src_icc[0] == "ok") else "tj-double"))
+        ctx.count("xf-%s-opt%d%s%s" % (api, opt, "-copynone" if cn else "", "-instanceicc" if dicc else ""), 1,
+                  ("xf", api, opt, cn, tuple((a, len(b)) for a, b in got)))
     hres = R.harness(hl2, lambda i: cases[meta2[i][0]])
     mres = R.model(ml2)
     for (ci, what, exp, failed, opt, api), h, m in zip(meta2, hres, mres):
@@ -815,10 +828,15 @@ def run_xf(ctx, R, cases):
             R.corr("copy", "option %d %s" % (opt, api), m, exp, c, failed)
         else:
             got = h.rsplit("| ", 1)[-1]
-            if got != icc_str(exp):
+            if exp is not None and got != icc_str(exp):
                 failed = True
-                ctx.violation("ICC profile of the transformed image: got '%s' expected '%s'" % (got[:60], icc_str(exp)), {"case": c, "opt": opt, "api": api},
-                              signature="xf-icc:%d:%s" % (opt, api))
+                if api == "tj-double":
+                    ctx.violation("tj3Transform with TJPARAM_SAVEMARKERS=%d and a profile set by tj3SetICCProfile: the output carries the source's and "
+                                  "the instance's ICC segments; reading it back gives '%s' instead of the source profile" % (opt, got[:40]),
+                                  {"case": c, "opt": opt}, signature="transform-double-icc:savemarkers%d" % opt)
+                else:
+                    ctx.violation("ICC profile of the transformed image: got '%s' expected '%s'" % (got[:60], icc_str(exp)), {"case": c, "opt": opt, "api": api},
+                                  signature="xf-icc:%d:%s" % (opt, api))
             R.corr("copy-read", "rd", m, h, c, failed)
 
 
